@@ -10,7 +10,7 @@
 From Coq Require Import List NArith ZArith Bool.
 From Storage Require Import Base.Bytes Links.LinkModel Links.LinkModelProofs Links.SetLinksMerge
   Links.SetLinksMergeProofs Links.RefCount Links.RefCountProofs Links.LinkMachine Links.LinkMachineProofs
-  Links.HierMachine Links.HierProofs.
+  Links.HierMachine Links.HierProofs Links.HierWhere Links.HierWhereProofs.
 Import ListNotations.
 Local Open Scope Z_scope.
 
@@ -149,8 +149,9 @@ Print Assumptions absent_entity_has_no_links.
 
    Each side is a family of stores: the root store (level 0) and its child stores (levels 1..n, plain
    or Extended()).  A topology [T] lists collection pairs; pair p joins the store of level [lvl T p A]
-   of family A with the store of level [lvl T p B] of family B by a link collection and a ref-counted
-   link collection.  [hp h sd k x]: store k of family sd holds entity x; [hl h p] / [hr h p]: the link
+   of family A with the store of level [lvl T p B] of family B by a link collection ([has_plain T p]),
+   a ref-counted link collection ([has_rc T p]), both or neither - so a store may register only plain
+   collections, only ref-counted ones, both, several of one kind, or none.  [hp h sd k x]: store k of family sd holds entity x; [hl h p] / [hr h p]: the link
    and count buckets of pair p.  Creates and deletes go through ANY store of a family. *)
 
 (* every state a history reaches satisfies, for every pair, the invariants of the flat machine on the
@@ -221,3 +222,89 @@ Theorem hier_delete_refused_when_ext_blocked : forall T U sd lv x h h', ext_bloc
   hdelete T U sd lv x h <> HDone h'.
 Proof. exact hdelete_blocked_lemma. Qed.
 Print Assumptions hier_delete_refused_when_ext_blocked.
+
+(* ==== which kinds of collection a store registers (third wave of the hierarchy model) ====================
+
+   All statements above hold for EVERY topology, in particular for stores that register only ref-counted
+   collections (cleanupLinks must run its second loop although store.links is empty), only plain ones,
+   several of one kind, or none.  In addition: *)
+
+(* a kind of collection the stores of a pair did not register never holds anything for that pair *)
+Theorem hier_unregistered_kind_holds_nothing : forall (T : topo) (U : univ) (hs : hhistory), hhist_in U hs ->
+  hhist_counts_ok hs -> hhist_bound 0 hs <= max_int32 ->
+  let h := run_hhist T U hs hinit in
+  forall p, (p < npairs T)%nat ->
+  (has_plain T p = false -> forall sd a b, hl h p sd a b = false) /\
+  (has_rc T p = false -> forall sd a b, hr h p sd a b = None).
+Proof. exact hier_kinds_lemma. Qed.
+Print Assumptions hier_unregistered_kind_holds_nothing.
+
+(* ... and its operations are refused *)
+Theorem hier_unregistered_op_refused : forall T U p o h, op_registered T p o = false ->
+  hstep T U (HLink p o) h = HFailed.
+Proof. exact hstep_unregistered_lemma. Qed.
+Print Assumptions hier_unregistered_op_refused.
+
+(* ==== DeleteWhere (Links/HierWhere.v) ==========================================================================
+
+   DeleteWhere through store (sd, lv) = DeleteById, through the same store, of every entity the store's
+   scan yields (root: the family; plain child: its own entities; Extended child: the parent's) and the
+   filter accepts. *)
+
+(* a transaction with DeleteWhere calls is the transaction of the DeleteById calls they made *)
+Theorem delete_where_is_delete_by_id : forall T U ops h,
+  (forall h', run_xops T U ops h = HDone h' -> run_hops T U (flatten T U ops h) h = HDone h') /\
+  (Forall (fun o => xop_ok T o = true) ops -> run_xops T U ops h = run_hops T U (flatten T U ops h) h) /\
+  (forall hs, run_xhist T U (embed_xhist hs) h = run_hhist T U hs h).
+Proof. exact delete_where_expansion_lemma. Qed.
+Print Assumptions delete_where_is_delete_by_id.
+
+(* every state a history with DeleteWhere calls reaches satisfies the invariants *)
+Theorem where_reachable_invariants : forall (T : topo) (U : univ) (hs : xhistory), xhist_in U hs ->
+  xhist_counts_ok hs -> xhist_bound 0 hs <= max_int32 -> hinv T U (xhist_bound 0 hs) (run_xhist T U hs hinit).
+Proof. exact where_reachable_lemma. Qed.
+Print Assumptions where_reachable_invariants.
+
+Theorem where_links_symmetric_counts_agree : forall (T : topo) (U : univ) (hs : xhistory), xhist_in U hs ->
+  xhist_counts_ok hs -> xhist_bound 0 hs <= max_int32 ->
+  let h := run_xhist T U hs hinit in
+  forall p, (p < npairs T)%nat -> forall sd a b,
+  (hl h p sd a b = true <-> hl h p (other sd) b a = true) /\
+  (In b (get_links U (view T p h) sd a) <-> In a (get_links U (view T p h) (other sd) b)) /\
+  is_linked (view T p h) sd a b = is_linked (view T p h) (other sd) b a /\
+  (hl h p sd a b = true ->
+     hp h sd (lvl T p sd) a = true /\ hp h (other sd) (lvl T p (other sd)) b = true /\
+     hp h sd 0%nat a = true /\ hp h (other sd) 0%nat b = true) /\
+  match hr h p sd a b, hr h p (other sd) b a with
+  | Some c, Some c' => c = c' /\ 0 < c <= max_int32
+  | None, None => True
+  | _, _ => False
+  end.
+Proof. exact where_pairs_lemma. Qed.
+Print Assumptions where_links_symmetric_counts_agree.
+
+Theorem where_absent_entity_has_no_links : forall (T : topo) (U : univ) (hs : xhistory), xhist_in U hs ->
+  xhist_counts_ok hs -> xhist_bound 0 hs <= max_int32 ->
+  let h := run_xhist T U hs hinit in
+  forall sd x, hp h sd 0%nat x = false ->
+  (forall k, hp h sd k x = false) /\
+  forall p, (p < npairs T)%nat -> forall k,
+    hl h p sd x k = false /\ hl h p (other sd) k x = false /\ hr h p sd x k = None /\ hr h p (other sd) k x = None.
+Proof. exact where_absent_lemma. Qed.
+Print Assumptions where_absent_entity_has_no_links.
+
+(* DeleteWhere through ANY store, any filter, in any state satisfying the invariants: every entity it
+   selected is gone from every store of the family and from every pair of every level and kind, on
+   both sides; what names none of them is untouched; the invariants hold again *)
+Theorem delete_where_cleans : forall T U M sd lv all ids h h', hinv T U M h ->
+  xstep T U (XDeleteWhere sd lv all ids) h = HDone h' ->
+  let l := where_ids T U h sd lv all ids in
+  hinv T U M h' /\
+  (forall x, In x l -> (forall k, hp h' sd k x = false) /\
+     forall p, (p < npairs T)%nat -> forall k,
+       hl h' p sd x k = false /\ hl h' p (other sd) k x = false /\ hr h' p sd x k = None /\ hr h' p (other sd) k x = None) /\
+  (forall sd' k x', ~ (sd' = sd /\ In x' l) -> hp h' sd' k x' = hp h sd' k x') /\
+  (forall p, (p < npairs T)%nat -> forall sd' a b, ~ (sd' = sd /\ In a l) -> ~ (sd' = other sd /\ In b l) ->
+     hl h' p sd' a b = hl h p sd' a b /\ hr h' p sd' a b = hr h p sd' a b).
+Proof. exact delete_where_cleans_lemma. Qed.
+Print Assumptions delete_where_cleans.
